@@ -84,6 +84,9 @@ private:
 	// Pending update
 	bool pendingUpdate;
 
+	// Did commit() see a change made by another process that has not been reported by wasUpdated() yet?
+	bool externalUpdate;
+
 	// Current value
 	unsigned long currentValue;
 
